@@ -291,3 +291,56 @@ Proof.
   { unfold M_SmtString_to_unicode_string, SmtString_to_unicode_string. cbv [bind]. destruct (M_fn_map_to_unicode (SmtString_s s)); reflexivity. }
   rewrite E. apply link_map_to_unicode.
 Qed.
+
+(* ---- str_from_int: i32::to_string is the model's own decimal printer ---- *)
+Require StrConvProofs.
+Lemma dec_digits_link f : forall n acc w, dec_digits f n acc = Some w -> dec_digits_ f n acc = w.
+Proof.
+  induction f as [|f IH]; intros n acc w H; [discriminate H|].
+  cbn [dec_digits dec_digits_] in *. destruct (n <? 10)%Z; [congruence|]. apply IH. exact H.
+Qed.
+Lemma dec_digits_len k : forall f n acc, (1 <= k)%nat -> (0 <= n < 10 ^ Z.of_nat k)%Z ->
+  (length (dec_digits_ f n acc) <= length acc + k)%nat.
+Proof.
+  induction k as [|k IH]; intros f n acc Hk Hn; [lia|].
+  destruct f as [|f]; cbn [dec_digits_]; [lia|].
+  destruct (n <? 10)%Z eqn:E; [cbn [length]; lia|].
+  destruct k as [|k']; [change (10 ^ Z.of_nat 1)%Z with 10%Z in Hn; lia|].
+  assert (Hd : (0 <= n / 10 < 10 ^ Z.of_nat (S k'))%Z).
+  { rewrite Nat2Z.inj_succ, Z.pow_succ_r in Hn by lia. split; [apply Z.div_pos; lia|].
+    apply Z.div_lt_upper_bound; lia. }
+  pose proof (IH f (n / 10)%Z (Z.to_N (48 + n mod 10) :: acc) ltac:(lia) Hd) as Hl. cbn [length] in Hl. lia.
+Qed.
+Lemma dec_digits_clamp f : forall n acc, map clampc acc = acc -> map clampc (dec_digits_ f n acc) = dec_digits_ f n acc.
+Proof.
+  induction f as [|f IH]; intros n acc Ha; [exact Ha|]. cbn [dec_digits_].
+  assert (Hc : map clampc (Z.to_N (48 + n mod 10) :: acc) = Z.to_N (48 + n mod 10) :: acc).
+  { cbn [map]. rewrite Ha. f_equal. unfold clampc, MAXC.
+    pose proof (Z.mod_pos_bound n 10 ltac:(lia)) as Hm.
+    destruct (Z.to_N (48 + n mod 10) <=? 196607) eqn:E; [reflexivity|exfalso; lia]. }
+  destruct (n <? 10)%Z; [exact Hc|]. apply IH. exact Hc.
+Qed.
+
+Lemma from_int_nonneg x w0 : (0 <= x <= 2147483647)%Z -> str_from_int x = Some w0 ->
+  option_map SmtString_s (M_SmtString_from_str (i32_to_string x)) = Some w0.
+Proof.
+  intros Hx Hw. unfold str_from_int in Hw. replace (0 <=? x)%Z with true in Hw by lia.
+  rewrite link_from_str. unfold from_str, i32_to_string. replace (x <? 0)%Z with false by lia.
+  change (dec_fuel_ x) with (dec_fuel x). apply dec_digits_link in Hw.
+  rewrite dec_digits_clamp by reflexivity. rewrite Hw, made_spec.
+  assert (Hl : (length w0 <= 10)%nat).
+  { rewrite <- Hw. apply (dec_digits_len 10 (dec_fuel x) x []); [lia|]. change (10 ^ Z.of_nat 10)%Z with 10000000000%Z. lia. }
+  replace (Z.of_nat (length w0) <=? 2147483647)%Z with true by lia. reflexivity.
+Qed.
+(* for every i32 x: str_from_int never panics and returns the model's numeral ("" for x < 0); the sign test
+   may be written in either orientation *)
+Lemma link_str_from_int x : (x <= 2147483647)%Z -> option_map SmtString_s (M_fn_str_from_int x) = str_from_int x.
+Proof.
+  intros Hx. unfold M_fn_str_from_int, fn_str_from_int. destruct (StrConvProofs.from_int_spec x) as [S1 S2].
+  destruct (Z_lt_le_dec x 0) as [H|H].
+  - rewrite (S2 H). gbools; first [ reflexivity | (exfalso; lia) ].
+  - destruct (S1 H) as (w0 & Hw & _). rewrite Hw.
+    gbools; first [ (apply from_int_nonneg; [lia | exact Hw]) | (exfalso; lia) ].
+Qed.
+Lemma link_from_String t : option_map SmtString_s (M_SmtString_from_String t) = made (from_str t).
+Proof. exact (link_from_str t). Qed.
